@@ -649,7 +649,62 @@ def sub_refill(ctx):
                                  fresh_fn=lambda q, v, kw=kw: _interp_grids()["uniform"].interpolate(q, v, **kw), rtol=1e-12, atol=1e-13)
 
 
+def sub_dtype_forms(ctx):
+    """Whole-number query points and data values in integer dtypes give what their float copies give: closest_point,
+    interpolate (every method, with derivatives) and integrate on a grid whose nodes have integer coordinates (argument
+    forms, lesson 14; after seeded change C11-I)."""
+    from grid.cubic import UniformGrid
+
+    g = UniformGrid(np.array([-4.0, -3.0, -4.0]), np.diag([1.0, 1.0, 1.0]), np.array([9, 8, 9]))
+    g2 = UniformGrid(np.array([-2, -3]), np.array([[1, 0], [0, 2]]), np.array([5, 4]))   # integer origin, axes and shape
+    gf = UniformGrid(np.array([-2.0, -3.0]), np.array([[1.0, 0.0], [0.0, 2.0]]), np.array([5, 4]))
+    ctx.count(section="dtype-forms")
+    if not (np.array_equal(g2.points, gf.points) and np.allclose(g2.weights, gf.weights, rtol=1e-14, atol=0)):
+        ctx.violation("dtype-forms:integer-origin-and-axes", "UniformGrid built from an integer origin / axes has other points or weights than the float copy "
+                      f"(points dtype {np.asarray(g2.points).dtype})", {"sub": "dtype-forms"})
+    qi = np.array([[0, 0, 0], [1, -1, 2], [-2, 2, -1], [2, 1, 1]])
+    vi = ((np.arange(g.size) * 5) % 13 - 3).astype(np.int64)
+    vpos = (vi - vi.min() + 1).astype(np.int64)
+    with warnings.catch_warnings():
+        warnings.simplefilter("ignore")
+        for k, q in enumerate(qi):
+            ctx.count(section="dtype-forms")
+            for which in ("closest", "origin"):
+                try:
+                    a, b = g.closest_point(q, which), g.closest_point(q.astype(float), which)
+                except Exception as exc:
+                    ctx.violation(f"dtype-forms:closest_point:raised:{type(exc).__name__}", f"closest_point(integer point {q.tolist()}, {which!r}): {exc}", {"sub": "dtype-forms"})
+                    continue
+                ctx.nontrivial(("dtype-forms", "closest", k, which), section="dtype-forms")
+                if int(a) != int(b) or int(a) != int(np.argmin(np.linalg.norm(g.points - q, axis=1))):
+                    ctx.violation("dtype-forms:closest_point:integer-point-differs", f"closest_point({q.tolist()} as integers, {which!r}) = {a}, as floats {b}", {"sub": "dtype-forms"})
+        qf = qi.astype(float) + np.array([0.25, -0.5, 0.125])
+        for nm, kw, vals in (("cubic", {}, vi), ("cubic-nu", {"nu_x": 1, "nu_z": 2}, vi), ("linear", {"method": "linear"}, vi),
+                             ("nearest", {"method": "nearest"}, vi), ("cubic-log", {"use_log": True}, vpos), ("cubic-log-nu", {"use_log": True, "nu_y": 1}, vpos)):
+            for pname, pts in (("float-points", qf), ("integer-points", qi)):
+                ctx.count(section="dtype-forms")
+                case = {"sub": "dtype-forms", "method": nm, "points": pname}
+                try:
+                    want = np.asarray(g.interpolate(pts.astype(float), vals.astype(float), **kw), dtype=float)
+                    got = np.asarray(g.interpolate(pts, vals, **kw), dtype=float)
+                    got32 = np.asarray(g.interpolate(pts, vals.astype(np.int32), **kw), dtype=float)
+                except Exception as exc:
+                    ctx.violation(f"dtype-forms:interpolate:{nm}:raised:{type(exc).__name__}", f"interpolate[{nm}] with integer-dtype values / {pname}: "
+                                  f"{type(exc).__name__}: {exc}", case)
+                    continue
+                ctx.nontrivial(("dtype-forms", nm, pname), section="dtype-forms")
+                sc = np.max(np.abs(want)) + 1e-300
+                if got.shape != want.shape or _gt(np.max(np.abs(got - want)), 1e-11 * sc) or _gt(np.max(np.abs(got32 - want)), 1e-11 * sc):
+                    ctx.violation(f"dtype-forms:interpolate:{nm}:differs-from-float-copy", f"interpolate[{nm}] with integer-dtype values and {pname} differs "
+                                  f"from the float64 copies: {got} vs {want}", case)
+        ctx.count(section="dtype-forms")
+        a, b = float(g.integrate(vi)), float(g.integrate(vi.astype(float)))
+        if _gt(abs(a - b), 1e-12 * abs(b)):
+            ctx.violation("dtype-forms:integrate:integer-values-differ", f"integrate of integer-dtype values {a!r}, of the float copy {b!r}", {"sub": "dtype-forms"})
+
+
 SUBS = {
+    "dtype-forms": sub_dtype_forms,
     "index": sub_index_maps, "layout": sub_layout, "weights": sub_weights, "from_molecule": sub_from_molecule,
     "from_molecule_weights": sub_from_molecule_weights,
     "closest": sub_closest, "cube": sub_cube, "interp-extra": sub_interp_extra, "refill": sub_refill, "homogeneity": sub_homogeneity,
